@@ -3,7 +3,7 @@ import ast
 
 from .. import poly
 from ..poly import Rat
-from ..procmodel import process_functions, evaluate, PM
+from ..procmodel import split_models, process_functions, evaluate, PM
 from ..symeval import Ctx
 from ..structural import attribute_writes
 from ..evaluator import analyse, Config
@@ -73,12 +73,30 @@ def run(ck):
     hits = attribute_writes(repo, "Composition", "p")
     ck.ob("Z1", "package", "no statement assigns Composition.p after construction", C.module.relpath, not hits,
           "; ".join("%s in %s" % (f.loc(n), f.qualname) for f, n, _ in hits))
+    # the validator is only a defence while it runs: nobody in the package may switch attrs validators off
+    from ..callgraph import CallGraph
+    cg = CallGraph(repo)
+    SWITCHES = ("attr.validators.set_disabled", "attr.validators.disabled", "attr.set_run_validators", "attrs.validators.set_disabled",
+                "attrs.validators.disabled", "attr._config.set_run_validators")
+    off = []
+    for k, f in cg.funcs.items():
+        for dotted, node in cg.externals[k]:
+            if dotted in SWITCHES or dotted.endswith((".set_run_validators", "validators.set_disabled", "validators.disabled")):
+                off.append("%s calls %s" % (f.loc(node), dotted))
+    import re as _re
+    for mod in repo.modules.values():
+        for n in ast.walk(mod.tree):
+            if isinstance(n, ast.Call) and _re.search(r"(set_run_validators|validators\.set_disabled|validators\.disabled)$", ast.unparse(n.func)):
+                w = "%s:%d calls %s" % (mod.relpath, n.lineno, ast.unparse(n.func))
+                if not any(x.startswith("%s:%d" % (mod.relpath, n.lineno)) for x in off):
+                    off.append(w)
+    ck.ob("Z1", "package", "attrs validators are never switched off", "pyvaporation/", not off, "; ".join(off)[:400])
     funcs = process_functions(repo)
     ck.floor("process functions", len(funcs), 4)
     for func in funcs:
         ck.analysed_function(func)
         exits = []
-        models = [m for m in evaluate(repo, func, ck.tier, guard_exits=exits) if isinstance(m, PM)]
+        models = split_models(ck, 'Z0', func, evaluate(repo, func, ck.tier, guard_exits=exits))
         ck.analysed["paths"] += len(models) + len(exits)
         ck.floor("evaluated paths of %s" % func.qualname, len(models), 6)
         for pm in models:
